@@ -9,6 +9,7 @@ runs in a thread; the harness owns the simulated FPGA clock and the DS simulator
 
 import gc
 import importlib
+import math
 import struct as _struct
 import os
 import shutil
@@ -206,6 +207,11 @@ def build_program(rs):
 
             ns["setup"] = setup_late
         ns["execute"] = _cb(f"{n}.execute")
+        if c.get("none_hooks") and not late and not c.get("sm"):
+            if not c.get("en"):
+                ns["on_enable"] = None
+            if not c.get("dis"):
+                ns["on_disable"] = None
         if c.get("rebind_hooks") and not late and not c.get("sm"):
             def _hook_tag(self, what, _n=n):
                 name = getattr(getattr(self, "logger", None), "name", None)
@@ -530,7 +536,7 @@ def run_program(case, with_faults=True, with_writes=True):
                     CTX.attr_faults.add(f["site"])
         if with_writes:
             for w in case.get("writes", []):
-                CTX.writes.setdefault((w["by"], w["n"]), []).append((w["comp"], w["attr"], w["value"]))
+                CTX.writes.setdefault((w["by"], w["n"]), []).append((w["comp"], w["attr"], write_value(case["robot"], w)))
         drv = simenv.RobotDriver(robot_cls, case.get("fms", False))
         drv.progress = lambda: len(CTX.log)
         CTX.robot = drv.robot
@@ -690,7 +696,7 @@ def tags(step):
 
 _I = st.integers
 _FB_CODE = st.tuples(_I(0, 7), _I(0, 2), _I(0, 13), st.lists(_I(0, 19), min_size=1, max_size=3))
-_COMP_CODE = st.tuples(_I(0, 31), _I(0, 2), _I(0, 1), _I(0, 1), st.lists(_FB_CODE, max_size=2), _I(0, 4))
+_COMP_CODE = st.tuples(_I(0, 63), _I(0, 2), _I(0, 1), _I(0, 1), st.lists(_FB_CODE, max_size=2), _I(0, 4))
 _ROBOT_CODE = st.tuples(
     st.lists(_COMP_CODE, max_size=4), _I(0, 4), _I(0, 255), st.booleans(), _I(0, 5),
     st.lists(st.booleans(), max_size=2), _I(0, 6), st.lists(_FB_CODE, max_size=2),
@@ -698,7 +704,7 @@ _ROBOT_CODE = st.tuples(
 _HIST_CODE = st.lists(st.tuples(_I(0, 6), _I(1, 6)), min_size=1, max_size=8)
 HIST_MODES = ("disabled", "auto", "teleop", "test", "auto", "disabled", "teleop")  # repeated autonomous / teleop periods are common
 _FAULT_CODE = st.lists(st.tuples(_I(0, 63), _I(0, 5)), min_size=1, max_size=3)
-_WRITE_CODE = st.lists(st.tuples(_I(0, 7), _I(1, 6), _I(0, 7), _I(0, 4)), max_size=4)
+_WRITE_CODE = st.lists(st.tuples(_I(0, 7), _I(1, 6), _I(0, 7), _I(0, 6)), max_size=4)
 _CHUNK_CODE = st.lists(st.lists(_I(1, 4_999), max_size=3), max_size=4)
 
 FB_NAMES = ["get_a", "b", "get_c2", "getter", "get_", "target_get_count", "widget_count", "_raw_counts"]  # "get_" may occur anywhere in a name
@@ -767,6 +773,10 @@ def decode_robot(code):
             # the component replaces its own on_enable / on_disable on the instance the first time it is enabled
             # (e.g. self.on_disable = self.motor.stop once the motor exists): the hook that counts is the current one
             c["rebind_hooks"] = True
+        elif flags & 32 and not c.get("sm") and not c.get("late_hooks") and not (c["en"] and c["dis"]):
+            # a hook the component does not have is spelled out as None (class attribute `on_disable = None`, the way
+            # a subclass opts out of an inherited hook): still "no hook"
+            c["none_hooks"] = True
         c["resets"] = {(f"_r{j}" if (rv + j) % 3 == 0 else f"r{j}"): RESET_VALUES[(rv + j) % 5] for j in range(nres)}  # markers may be private names too
         c["base_resets"] = {f"b{j}": RESET_VALUES[(rv + 2 + j) % 5] for j in range(nbres)}
         if nres == 2 and flags % 4 == 3:
@@ -863,8 +873,39 @@ def decode_writes(code, rs):
         return out
     for w, n, t, v in code:
         comp, attr = targets[t % len(targets)]
-        out.append({"by": writers[w % len(writers)], "n": 1 + (n - 1) % 3 if v < 3 else n, "comp": comp, "attr": attr, "value": WRITE_VALUES[v]})
+        out.append({"by": writers[w % len(writers)], "n": 1 + (n - 1) % 3 if v < 3 else n, "comp": comp, "attr": attr, "value": WRITE_VALUES[v] if v < 5 else "<EQ>"})
     return out
+
+
+class _StrSub(str):
+    """a str subclass instance: equal to the plain string, not the same type"""
+
+
+def write_value(rs, w):
+    """the object a scripted assignment stores; "<EQ>" stands for a value that compares equal to the declared default
+    of the target without being it (0 / False / -0.0, Decimal('2.5') / 2.5, a str subclass): it still has to be
+    replaced by the default at the end of the iteration"""
+    if w["value"] != "<EQ>":
+        return w["value"]
+    c = next(c for c in rs["comps"] if c["n"] == w["comp"])
+    d = dict(c.get("base_resets", {}), **c.get("resets", {})).get(w["attr"])
+    if d is False:
+        return 0
+    if d == 0 and isinstance(d, int):
+        return [False, -0.0][w["n"] % 2]
+    if d == "v":
+        return _StrSub("v")
+    if d == 2.5:
+        import decimal
+
+        return decimal.Decimal("2.5")
+    return 42
+
+
+def same_value(v, want):
+    if type(v) is not type(want) or not (v == want):
+        return False
+    return not isinstance(v, float) or math.copysign(1.0, v) == math.copysign(1.0, want)
 
 
 def robot_cases(pid, deep=False):
@@ -1218,10 +1259,12 @@ class C10(RobotLab):
         counts = {}
         writes = {}
         for w in case.get("writes", []):
-            writes.setdefault((w["by"], w["n"]), []).append((f"{w['comp']}.{w['attr']}", w["value"]))
+            writes.setdefault((w["by"], w["n"]), []).append((f"{w['comp']}.{w['attr']}", write_value(rs, w)))
+
         performed = 0
         read_back = 0
         dirty = set()
+        eq_writes = any(w["value"] == "<EQ>" for w in case.get("writes", []))
         for i, s in enumerate(run.steps):
             for tag, t, snap in s["log"]:
                 n = counts[tag] = counts.get(tag, 0) + 1
@@ -1230,7 +1273,7 @@ class C10(RobotLab):
                         want = cur[k]
                         if want == "<NO_TARGET>":
                             want = NO_TARGET  # compared by identity below (== falls back to 'is' for plain objects)
-                        if not (v == want and type(v) is type(want)):
+                        if not same_value(v, want):
                             what = "marked" if k in marked else "plain"
                             phase = "same-iteration" if k in dirty else "stale"
                             raise Violation(
@@ -1251,6 +1294,8 @@ class C10(RobotLab):
         cl = self.classes_of(case, run)
         if performed:
             cl.add("write-performed")
+        if performed and eq_writes:
+            cl.add("write-equal-to-default-but-distinct")
         if run.fired:
             cl.add("fault-fired")
         if any(c.get("base_resets") for c in rs["comps"]):
